@@ -250,7 +250,12 @@ def rule_e(ctx):
         ctx.ob("simulation-new-stores-configuration", ok, "Simulation::new stores clock, tolerance and timeout in the fields used by stepping", aggs)
 
 
+def rule_f(ctx):
+    from . import c04
+    c04.rule_a(ctx)
+
 RULES = [
+    ("C18.f", "all computations of a step are run to quiescence before the stepping call returns", rule_f),
     ("C18.e", "the configured clock and tolerance reach the stepping function unchanged", rule_e),
     ("C18.a", "stepping fn: write < unlock < synchronize(written) < run; OutOfSync iff lag > tolerance", rule_a),
     ("C18.b", "final jump: write(target) < synchronize(target), once", rule_b),
